@@ -46,6 +46,8 @@ def concrete_event(e, style):
         tstr = '%04d-%02d-%02dT%02d:%02d:%02d.%06d' % (d.year, d.month, d.day, h, mi, s, ms * 1000)
     epoch_ms = calendar.timegm((d.year, d.month, d.day, h, mi, s)) * 1000 + ms
     eid = 'ev%d' % e if style != 'mixed' or e % 5 else 'ci%d-%d' % (e, e * 3)
+    if style == 'mixed' and e % 4 == 1:
+        eid = ''            # the event id column may be left blank; the row is still an event
     return {'lon': lon, 'lat': lat, 'mag': mag, 'depth': depth, 'tstr': tstr, 'ms': epoch_ms, 'id': eid}
 
 
